@@ -1777,7 +1777,7 @@ func TestC20(t *testing.T) {
 		c20Replay(t, p)
 		return
 	}
-	budget := 50 * time.Second
+	budget := 150 * time.Second // a cap only: the quick families close in about 12 s on an idle machine
 	if tier == "thorough" {
 		budget = 9 * time.Minute
 	}
